@@ -71,6 +71,7 @@ def build_group_c(g, L0, allc, scratch, vacuity=False):
     L = L0.fork()
     L.fdiv_macro = bool(g.get('uf_fdiv'))
     L.fp_uf = bool(g.get('uf_fp'))
+    L.disjoint_unions = tuple(g.get('disjoint_unions', ()))
     L.request(g['roots'], g.get('stubs', []))
     tab = L.function_table()
     def split(spec):
